@@ -1050,7 +1050,13 @@ func runMode(t *testing.T, in *vio.Input, res *vio.Result, bi int, b vio.Behavio
 		w.finish(prev)
 		res.AddSteps(1, len(w.hist))
 		res.Count("mode"+mode, 1)
-		res.Sample(map[string]any{"behaviour": bi, "mode": mode, "scenario": w.scn, "actions": len(w.hist)}, 4)
+		var trace []json.RawMessage
+		for i, h := range w.hist {
+			if i < 40 {
+				trace = append(trace, h.A)
+			}
+		}
+		res.Sample(map[string]any{"behaviour": bi, "mode": mode, "scenario": w.scn, "steps": len(w.hist), "actions": trace}, 2)
 	})
 }
 
